@@ -339,7 +339,7 @@ class Gen(object):
         if depth < 2 and self.budget > 0:
             kinds += ['if'] * 3 + ['while'] + ['for']
         if self.o.nested and not infun and depth == 0 and self.nfun < 2:
-            kinds += ['def'] * 2
+            kinds += ['def'] * 2 + ['condef'] * 2
         if self.funs and not infun:
             kinds += ['lcall'] * 3 + ['lcall2'] * 2
         if self.o.untyped:
@@ -469,6 +469,8 @@ class Gen(object):
             self.funs[g] = (npar, rebinds)
             env[g] = set()
             return env
+        if k == 'condef':
+            return self.condef(ind, env)
         if k == 'lcall':
             g = r.choice(sorted(self.funs))
             npar, rebinds = self.funs[g]
@@ -512,6 +514,89 @@ class Gen(object):
             for nl in rebinds:
                 env[nl] = {typing.Any}
             return env
+        return env
+
+    def emit_def(self, ind, g, npar, rebinds, pname):
+        self.emit(ind, 'def %s(%s):' % (g, pname if npar else ''))
+        for nl in rebinds:
+            self.emit(ind + 1, 'nonlocal %s' % nl)
+        self.gen_inner(ind + 1, g, npar, rebinds, pname)
+
+    def condef(self, ind, env):
+        """A local function defined on several control paths of unequal length (both arms of an if with the def
+        LAST in the longer arm, the end of a loop body, a try body and its handler), called where the paths
+        join and again later, with captured (and nonlocal) variables re-bound to another type in between."""
+        r = self.r
+        self.nfun += 1
+        g = 'g%d' % self.nfun
+        npar = r.choice([0, 0, 1])
+        rebinds = []
+        if self.o.untyped and r.random() < 0.4:
+            rebinds = [r.choice(sorted(self.defined_outer & set(VARS)))]
+        pname = 'p'
+        shadow = sorted(self.defined_outer - set(rebinds))
+        if npar and shadow and r.random() < 0.4:
+            pname = r.choice(shadow)
+        form = r.choice(['if', 'if', 'if', 'for', 'while', 'try'])
+
+        def some(ind2, env2, n):
+            for _ in range(n):
+                self.force = ['assign']
+                env2 = self.stmt(ind2, env2, 1, False)
+            return env2
+
+        if form == 'if':
+            test = r.choice(['a', 'b', 'c', 'True', 'False', self.expr(env, 1)[0]])
+            self.emit(ind, 'if %s:' % test)
+            nlong = r.choice([1, 2, 3])
+            long_first = r.random() < 0.6
+            e1 = some(ind + 1, env, nlong if long_first else 0)
+            self.emit_def(ind + 1, g, npar, rebinds, pname)
+            self.emit(ind, 'else:')
+            e2 = some(ind + 1, env, 0 if long_first else nlong)
+            self.emit_def(ind + 1, g, npar, rebinds, pname)
+            env = self.join(e1, e2)
+        elif form in ('for', 'while'):
+            self.nloop += 1
+            self.inloop += 1
+            if form == 'for':
+                self.emit(ind, 'for q%d in (1, 2):' % self.nloop)
+            else:
+                n = 'n%d' % self.nloop
+                self.emit(ind, '%s = 0' % n)
+                self.emit(ind, 'while %s < 2:' % n)
+                self.emit(ind + 1, '%s = %s + 1' % (n, n))
+            e1 = some(ind + 1, env, r.choice([0, 1, 2]))
+            self.emit_def(ind + 1, g, npar, rebinds, pname)
+            self.inloop -= 1
+            env = self.widen(env, e1)
+        else:
+            self.emit(ind, 'try:')
+            e1 = some(ind + 1, env, r.choice([1, 2]))
+            self.emit_def(ind + 1, g, npar, rebinds, pname)
+            self.emit(ind, 'except ValueError:')
+            self.emit_def(ind + 1, g, npar, rebinds, pname)
+            env = self.join(e1, env)
+        env = dict(env)
+        self.funs[g] = (npar, rebinds)
+        env[g] = set()
+        # call at the join, re-type a captured variable, (another statement,) call again
+        for i in range(r.choice([2, 2, 3])):
+            arg = self.expr(env, 1)[0] if npar else ''
+            if r.random() < 0.5:
+                self.emit(ind, '%s(%s)' % (g, arg))
+            else:
+                v = r.choice(VARS)
+                self.emit(ind, '%s = %s(%s)' % (v, g, arg))
+                env[v] = {typing.Any}
+            for nl in rebinds:
+                env[nl] = {typing.Any}
+            v = r.choice(sorted(self.defined_outer & set(VARS)))
+            e, t = self.expr(env)
+            self.emit(ind, '%s = %s' % (v, e))
+            env[v] = t
+            if r.random() < 0.4:
+                self.emit(ind, self.expr(env, 1)[0])
         return env
 
     def chain(self, ind, env, vars_):
@@ -673,9 +758,13 @@ class Gen(object):
             self.defined_outer.add(v)
         if self.o.nested and self.r.random() < 0.8:
             # a local function, called right away and again later, in most programs of the nested streams
-            self.force = ['def', 'lcall']
-            env = self.stmt(1, env, 0, False)
-            env = self.stmt(1, env, 0, False)
+            if self.r.random() < 0.4:
+                self.force = ['condef']
+                env = self.stmt(1, env, 0, False)
+            else:
+                self.force = ['def', 'lcall']
+                env = self.stmt(1, env, 0, False)
+                env = self.stmt(1, env, 0, False)
         env = self.block(1, env, 0, False, minlen=2)
         rets = [n for n, s in sorted(env.items()) if s and n in VARS + PARAMS]
         self.emit(1, 'return (%s,)' % ', '.join(self.r.sample(rets, min(len(rets), 3))))
